@@ -94,7 +94,7 @@ def derived(key):
 def unit(cfg):
     key, dim, lengths, mode, want = cfg
     label = "%s/%s/%s/mode=%s/%s" % (key, dim, ",".join("%s=%d" % kv for kv in sorted(lengths.items())) or "mono", mode, want)
-    u = Unit(label, timeout_ms=60000)
+    u = Unit(label, timeout_ms=30000)
     try:
         km, translate = derived(key)
     except Exception as e:
